@@ -97,7 +97,11 @@ def run(ctx):
             why = 'closure %s reads %s%s' % (a.id, sorted(free), ' and overwritten field(s) %s' % [norm(x) for x in stale] if stale else '')
         elif isinstance(a, ast.Name) and a.id in locals_assigned:
             # ids iterator
-            ok = all(isinstance(v, ast.Call) for v in locals_assigned[a.id])
+            def leaves(v):
+                if isinstance(v, ast.IfExp):
+                    return leaves(v.body) + leaves(v.orelse)
+                return [v]
+            ok = all(isinstance(x, ast.Call) for v in locals_assigned[a.id] for x in leaves(v))
         elif self_attr(a) is not None:
             f = self_attr(a)
             m = st.lookup(f)
@@ -144,6 +148,14 @@ def run(ctx):
             okp = len(c0.args) >= 2 and isinstance(c0.args[0], ast.Name) and c0.args[0].id in tv and \
                 any(isinstance(s, ast.Assign) and isinstance(s.targets[0], ast.Subscript) and isinstance(s.targets[0].slice, ast.Name) and
                     s.targets[0].slice.id == c0.args[0].id for s in l.body)
+    # the same written as a dict comprehension: {category: self._play_category(category, ids) for category, ids in ...}
+    for dc in [n for n in ast.walk(play.node) if isinstance(n, ast.DictComp)]:
+        calls = [x for x in ast.walk(dc) if isinstance(x, ast.Call) and self_attr(x.func) == pc.name]
+        if len(calls) == 1 and calls[0] is dc.value and len(dc.generators) == 1 and not dc.generators[0].ifs:
+            c0 = calls[0]
+            tv = [x.id for x in ast.walk(dc.generators[0].target) if isinstance(x, ast.Name)]
+            okp = okp or (len(c0.args) >= 2 and isinstance(c0.args[0], ast.Name) and c0.args[0].id in tv and
+                          isinstance(dc.key, ast.Name) and dc.key.id == c0.args[0].id)
     cb.instance('play(): one _play_category call per category, result stored under that category', play.qualname, okp)
     cb.evaluations += 3
     if not okp:
